@@ -181,6 +181,10 @@ type runSpec struct {
 	// documented as allowed):
 	// "closedcm": every CompiledModule (guest and host) is closed after instantiation, then the call runs;
 	// "hostclose": every CompiledModule is closed from inside the first host function entered during the call;
+	// "closedmid": four unrelated modules are compiled around the program's modules (two before,
+	//          two after), then the first and the third of them are closed while everything else
+	//          stays live (>= 5 compiled modules in the engine, a non-last one is removed), then
+	//          the tree is instantiated and run;
 	// "rtinst": modules are created with Runtime.InstantiateWithConfig / HostModuleBuilder.Instantiate
 	//          (no separate CompiledModule: closing the module, e.g. by an exit leaf, closes its code mid-call).
 	History string
@@ -300,6 +304,18 @@ func runCase(p *program, spec runSpec) (res runResult) {
 			return fail(err)
 		}
 	}
+	var fillers []wazero.CompiledModule
+	compileFiller := func(k int) {
+		c, err := rt.CompileModule(ctx, fillerBins[k])
+		if err != nil {
+			panic(fmt.Errorf("harness: filler module rejected: %w", err))
+		}
+		fillers = append(fillers, c)
+	}
+	if spec.History == "closedmid" {
+		compileFiller(0)
+		compileFiller(1)
+	}
 	var startErr error
 	var m0 api.Module
 	for l := len(p.bins) - 1; l >= 0; l-- {
@@ -327,6 +343,13 @@ func runCase(p *program, spec runSpec) (res runResult) {
 				panic(fmt.Errorf("harness: generated module rejected: %w", err))
 			}
 			compiled = append(compiled, cm)
+			if l == 0 && spec.History == "closedmid" {
+				// every module of the program is in the engine now; nothing of the tree has run yet
+				compileFiller(2)
+				compileFiller(3)
+				fillers[0].Close(ctx)
+				fillers[2].Close(ctx)
+			}
 			mod, err = rt.InstantiateModule(ctx, cm, wazero.NewModuleConfig().WithName(fmt.Sprintf("m%d", l)))
 		}
 		if l == 0 && p.start {
@@ -359,3 +382,19 @@ func runCase(p *program, spec runSpec) (res runResult) {
 	res.Faults = append(recA.faults, recB.faults...)
 	return res
 }
+
+// fillerBins: four unrelated modules of different code sizes (history "closedmid").
+var fillerBins = func() [][]byte {
+	var out [][]byte
+	for k := 0; k < 4; k++ {
+		m := &wb.Module{}
+		a := &wb.Asm{}
+		for j := 0; j < 40*k; j++ {
+			a.I32Const(int32(j)).Drop()
+		}
+		a.I32Const(int32(100 + k))
+		m.ExportFunc(fmt.Sprintf("filler%d", k), m.AddFunc(nil, []byte{wb.I32}, nil, a.B))
+		out = append(out, m.Encode())
+	}
+	return out
+}()
